@@ -134,7 +134,7 @@ def line_cases(draw):
   items = draw(line_items())
   total = sum(len(i['hex']) // 2 + 1 for i in items)
   cuts = draw(st.lists(st.integers(1, max(1, total - 1)), max_size=8))
-  return {'listener': 'line', 'items': items, 'cuts': sorted(set(cuts))}
+  return {'listener': 'line', 'items': items, 'cuts': sorted(set(cuts)), 'lists': draw(st.integers(0, 3)) == 0}
 
 
 @st.composite
@@ -143,7 +143,7 @@ def udp_cases(draw):
   for _ in range(draw(st.integers(1, 3))):
     items = draw(line_items(udp=True))
     dgs.append({'items': items, 'final_eol': draw(st.booleans())})
-  return {'listener': 'udp', 'datagrams': dgs}
+  return {'listener': 'udp', 'datagrams': dgs, 'lists': draw(st.integers(0, 3)) == 0}
 
 
 # ---- pickle ---------------------------------------------------------------
@@ -268,7 +268,7 @@ def pickle_cases(draw):
   items = draw(st.lists(pickle_frame_item(), min_size=1, max_size=7))
   total = sum(len(i['hex']) // 2 for i in items)
   cuts = draw(st.lists(st.integers(1, max(1, total - 1)), max_size=8))
-  return {'listener': 'pickle', 'items': items, 'cuts': sorted(set(cuts))}
+  return {'listener': 'pickle', 'items': items, 'cuts': sorted(set(cuts)), 'lists': draw(st.integers(0, 3)) == 0}
 
 
 # ------------------------------------------------------------------ oracle
@@ -328,9 +328,30 @@ def build_stream(case):
   return b''.join(bytes.fromhex(i['hex']) for i in case['items'])
 
 
-def run_tcp(ctx, case, cuts, label):
-  env.reset()
+def reset_for(case):
+  """Default settings, or - case['lists'] - USE_WHITELIST with a whitelist that admits every name and a blacklist
+  that matches none, loaded from files the way the daemon loads them: the same datapoints are expected."""
   b = env.bootstrap()
+  if not case.get('lists'):
+    env.reset()
+    return b
+  import os
+  env.reset(USE_WHITELIST=True)
+  for lst, fname, text in ((b.regexlist.WhiteList, 'whitelist.conf', '# admit everything\n\n.*\n'),
+                           (b.regexlist.BlackList, 'blacklist.conf', '^no-such-metric-ever$\n')):
+    path = os.path.join(b.conf_dir, fname)
+    with open(path, 'w') as f:
+      f.write(text)
+    os.utime(path, (1500000000, 1500000000))
+    lst.list_file = path
+    lst.read_list()
+    if len(lst.regex_list) != 1:
+      raise HarnessError('list file %s not loaded' % fname)
+  return b
+
+
+def run_tcp(ctx, case, cuts, label):
+  b = reset_for(case)
   rec = env.Recorder(b.events.metricReceived)
   lst = wire.Listener(case['listener'])
   lst.feed(build_stream(case), cuts)
@@ -422,8 +443,7 @@ def execute(ctx, case):
     return execute_raw(ctx, case)
   kind = case['listener']
   if kind == 'udp':
-    env.reset()
-    b = env.bootstrap()
+    b = reset_for(case)
     rec = env.Recorder(b.events.metricReceived)
     lst = wire.Listener('udp')
     allitems = []
@@ -434,14 +454,14 @@ def execute(ctx, case):
       allitems += dg['items']
       nt = nt or nontrivial_items(dg['items'])
     judge(ctx, case, allitems, list(rec.items), lst, 'datagrams', '')
-    ctx.note(case, nontrivial=nt, classes=['udp'] + ['udp:' + i['cls'] for i in allitems if i['cls'] != 'good'])
+    ctx.note(case, nontrivial=nt, classes=['udp'] + (['white/blacklist configured'] if case.get('lists') else []) + ['udp:' + i['cls'] for i in allitems if i['cls'] != 'good'])
     return
   data = build_stream(case)
   cuts = [c for c in case['cuts'] if 0 < c < len(data)]
   if not run_tcp(ctx, case, cuts, 'cuts=%s' % cuts):
     return
   ctx.note(case, nontrivial=nontrivial_items(case['items']),
-           classes=[kind] + [kind + ':' + i['cls'].split(':')[0] + (':' + i['cls'].split(':')[1] if 'bad-entry' in i['cls'] else '')
+           classes=[kind] + (['white/blacklist configured'] if case.get('lists') else []) + [kind + ':' + i['cls'].split(':')[0] + (':' + i['cls'].split(':')[1] if 'bad-entry' in i['cls'] else '')
                              for i in case['items'] if i['cls'] != 'good'])
   if not run_tcp(ctx, case, [], 'whole'):
     return
